@@ -226,4 +226,20 @@ theorem lanes_generated_eq :
 
 example : Gen.yaml_quote_avx2_mask_0 0x5c#8 = true ∧ Gen.yaml_quote_avx2_mask_0 0x5d#8 = false := by decide
 
+/-- The one consumer of the classifier, `Parser::skip_unquoted_simd` (src/yaml/parser.rs), still
+computes its stop mask as exactly `class.plain_scalar_terminators::<HAS_CR>()` — `newlines | colons |
+hash`, `| carriage_returns` under `HAS_CR` (x86.rs) — and stops at its lowest set bit.  This is u32
+mask arithmetic outside the lane subset, so the source text of these bindings is pinned (regenerated
+into Generated/C16.lean on every run): narrowing the mask (e.g. dropping `#` unless a space precedes
+it) breaks this obligation.  The mask must stay a superset of the bytes the parser's byte loop stops
+at — `\n`, `\r`, `:`, `#` — because the byte loop, not the mask, decides what they mean. -/
+theorem plain_scalar_skip_source_pinned :
+    Gen.yaml_skip_unquoted_pin_terminators_src = ["class . plain_scalar_terminators :: < HAS_CR > ( )"] ∧
+    Gen.yaml_skip_unquoted_pin_first_pos_src = ["terminators . trailing_zeros ( ) as usize"] ∧
+    Gen.yaml_plain_terminators_pin_terminators_src =
+      ["self . newlines | self . colons | self . hash", "terminators | self . carriage_returns"] := by
+  decide
+
+example : Gen.yaml_plain_terminators_pin_terminators_src.length = 2 := by decide
+
 end SV.Props.C16
